@@ -494,7 +494,9 @@ def render_node(i, nd, program):
     k = nd['k']
     if k == 'param':
         prm = program['params'][nd['i']]
-        if isinstance(prm['default'], list):     # array argument: a plain list
+        if isinstance(prm['default'], list) and program.get('profile') == 'c02':
+            # c02 checks structure only; arithmetic directly on array
+            # arguments is C01's subject (p_array_control)
             return f"v{i} = ChannelList({prm['name']})"
         return f"v{i} = {prm['name']}"
     if k == 'un':
@@ -692,8 +694,29 @@ class Gen:
         self.next_tag = 1000
         self.features = set()
         self.no_dup = False   # True: no unit reads the same object twice
+        # True: operands are chosen as if no expression were ever folded to a
+        # Python number (x*0, x.madd(0, c)): method receivers, divisors and
+        # rate sensitive positions may then be such expressions.  They are
+        # part of the property's quantifier; a library that folds them to a
+        # float makes `(x*0).midicps()` raise and lowers the rate of
+        # `x_ar*0 + y_kr`.
+        self.folding_agnostic = False
 
     # -- bookkeeping ---------------------------------------------------------
+    def finish(self):
+        """features and the nodes a folding library would turn into numbers
+        or into signals of a lower rate (used to name the mechanism when such
+        a program does not compile)"""
+        self.prog['features'] = sorted(self.features)
+        self.prog['folding_agnostic'] = self.folding_agnostic
+        self.prog['foldable_nodes'] = [
+            i for i, inf in enumerate(self.info)
+            if self.prog['nodes'][i]['k'] in ('un', 'bin', 'madd', 'sumn',
+                                              'lsum', 'mix')
+            and ((inf.kind == 'val' and (inf.semc or inf.lo < inf.hi))
+                 or (inf.einfo and any(e.semc or e.lo < e.hi
+                                       for e in inf.einfo)))]
+
     def tag(self):
         self.next_tag += 1
         return self.next_tag
@@ -706,7 +729,7 @@ class Gen:
     def nsc(self, o):
         """operand is certainly a unit generator object when the function runs."""
         return o[0] == 'n' and self.info[o[1]].kind == 'val' \
-            and not self.info[o[1]].semc
+            and (self.folding_agnostic or not self.info[o[1]].semc)
 
     def add(self, nd):
         if self.no_dup and nd['k'] not in ('sink', 'list', 'param', 'idx'):
@@ -764,7 +787,10 @@ class Gen:
             prm = self.prog['params'][nd['i']]
             r = RATE_NUM[prm['rate']]
             if isinstance(prm['default'], list):
-                return _Info('multi', r, r, False, 0, len(prm['default']))
+                n = len(prm['default'])
+                return _Info('list', r, r, False, 0, n, elems=n,
+                             einfo=[_Info('val', r, r, False, 0)
+                                    for _ in range(n)])
             return _Info('val', r, r, False, 0)
         if k in ('un', 'bin', 'madd', 'sumn', 'lsum', 'mix'):
             hi = max([x.hi for x in ops], default=0)
@@ -810,6 +836,8 @@ class Gen:
         if small:
             return ['c', rng.choice(SUM_CONSTS)]
         x = rng.random()
+        if self.profile == 'c02' and x > 0.9:
+            return ['c', round(rng.uniform(-1000, 1000), rng.randint(1, 6))]
         if x < 0.4:
             return ['c', rng.choice(SPECIAL_CONSTS)]
         if self.big_consts and x < 0.8:
@@ -821,6 +849,13 @@ class Gen:
         out = []
         for i, inf in enumerate(self.info):
             if inf.kind != 'val' or inf.depth > md:
+                continue
+            if self.folding_agnostic:
+                if stable is not None and inf.hi != stable:
+                    continue
+                if stable is None and inf.hi > maxrate:
+                    continue
+                out.append(i)
                 continue
             if nsc and inf.semc:
                 continue
@@ -862,7 +897,11 @@ class Gen:
         if not (an or bn):
             return None
         method = forms[f].startswith('{a}.')
-        if (method or op not in oc.BINARY_LEFT_NUMBER_OK) and not an:
+        comparison = op in ('==', '!=', '<', '>', '<=', '>=')
+        if (method or op not in oc.BINARY_LEFT_NUMBER_OK) and not an \
+                and not (comparison and a[0] == 'c'):
+            # `3 < x` is evaluated by Python as `x > 3`: the same unit (the
+            # oracle hashes comparisons in canonical form)
             return None
         if max(self.oinfo(a).depth, self.oinfo(b).depth) >= self.max_depth:
             return None
@@ -886,7 +925,8 @@ class Gen:
             elif kind == 'c':
                 args.append(['c', rng.choice([0, 1, 2, 0.5, 0.25, 4])])
             elif kind == 'sig':
-                args.append(self.pick(maxrate=r, pconst=0.35))
+                args.append(self.pick(maxrate=2 if rng.random() < 0.07 else r,
+                                      pconst=0.35))
             elif kind == 'any':
                 args.append(self.pick(maxrate=2, pconst=0.1))
             elif kind == 'ir':
@@ -1066,7 +1106,9 @@ class Gen:
             return None
         b = self.pick(pconst=0.4)
         op = rng.choice(_OPAQUE_BIN)
-        if op in oc.BINARY_LEFT_NUMBER_OK and rng.random() < 0.3:
+        if (op in oc.BINARY_LEFT_NUMBER_OK or op in ('<', '>', '<=', '>=', '==',
+                                                     '!=')) \
+                and rng.random() < 0.3:
             f = 0
             return self.mk_bin(op, b, a, f)
         return self.mk_bin(op, a, b)
@@ -1194,6 +1236,54 @@ class Gen:
                           'chans': [ch], 'bare': True})
         return res
 
+    # -- arithmetic directly on an array control ------------------------------
+    def p_array_control(self):
+        """`freqs * 2`, `freqs + x`, `-freqs`, `freqs.madd(a, b)` ... on a
+        control with a tuple default: the guide calls them vector arguments
+        and lists combine with signals channel by channel"""
+        rng = self.rng
+        c = [i for i, nd in enumerate(self.prog['nodes'])
+             if nd['k'] == 'param' and self.info[i].kind == 'list']
+        if not c:
+            return None
+        recv = ['n', rng.choice(c)]
+        self.features.add('array-control-arithmetic')
+        which = rng.choice(['bin-number', 'bin-number', 'bin-signal', 'un',
+                            'madd', 'number-left'])
+        if which == 'bin-number':
+            op = rng.choice(['*', '+', '-', '/', 'max', 'pow'])
+            nd = {'k': 'bin', 'op': op, 'a': recv,
+                  'b': ['c', rng.choice([2, 3, 0.5, 1.5, 4])], 'form': 0}
+        elif which == 'bin-signal':
+            o = self.pick_node(maxdepth=self.max_depth - 2)
+            if o is None:
+                return None
+            nd = {'k': 'bin', 'op': rng.choice(['*', '+', '-']), 'a': recv,
+                  'b': o, 'form': 0}
+        elif which == 'un':
+            op = rng.choice(['neg', 'abs', 'midicps', 'squared'])
+            nd = {'k': 'un', 'op': op, 'a': recv,
+                  'form': rng.randrange(len(oc.UNARY_FORMS[op]))}
+        elif which == 'madd':
+            nd = {'k': 'madd', 'a': recv, 'mul': ['c', rng.choice([2, 0.5, 3])],
+                  'add': self.pick(pconst=0.6, maxdepth=self.max_depth - 2)}
+        else:
+            nd = {'k': 'bin', 'op': rng.choice(['*', '+', '-']),
+                  'a': ['c', rng.choice([2, 3, 0.5])], 'b': recv, 'form': 0}
+        res = self.add(nd)
+        if res is None or self.info[res[1]].einfo is None:
+            return None
+        for j, e in enumerate(self.info[res[1]].einfo):
+            ch = self.add({'k': 'idx', 'a': res, 'i': j})
+            bus = ['c', rng.randrange(0, 8)]
+            if e.hi == e.lo == 2:
+                self.add({'k': 'sink', 'cls': 'Out', 'm': 'ar', 'bus': bus,
+                          'chans': [ch], 'bare': True})
+            elif e.hi <= 1:
+                self.add({'k': 'sink', 'cls': 'Out', 'm': 'kr', 'bus': bus,
+                          'chans': [ch], 'bare': True})
+        return res
+
     # -- width-first units: ordering side effects --------------------------------
     def p_width_first(self):
         """RandSeed / RandID / LocalBuf (+ SetBuf | ClearBuf) between ordinary
@@ -1259,7 +1349,8 @@ class Gen:
             return self.add({'k': 'sink', 'cls': cls, 'm': m, 'tag': t,
                              'args': [o, ['c', t], self.pick(maxrate=r)]})
         if rng.random() < 0.3:
-            bus = self.pick(maxrate=1, pconst=0.0, maxdepth=self.max_depth)
+            bus = self.pick(maxrate=2 if rng.random() < 0.1 else 1, pconst=0.0,
+                            maxdepth=self.max_depth)
         else:
             bus = ['c', rng.randrange(0, 8)]
         nch = rng.choice([1, 1, 2, 2, 3])
@@ -1272,8 +1363,8 @@ class Gen:
                 else:
                     chans.append(self.audio_node())
             else:
-                chans.append(self.pick(maxrate=1, pconst=0.1,
-                                       maxdepth=self.max_depth))
+                chans.append(self.pick(maxrate=2 if rng.random() < 0.1 else 1,
+                                       pconst=0.1, maxdepth=self.max_depth))
         nd = {'k': 'sink', 'cls': cls, 'm': m, 'bus': bus, 'chans': chans}
         if nch == 1 and rng.random() < 0.5:
             nd['bare'] = True
@@ -1304,7 +1395,7 @@ C01_PRODUCTIONS = [
     ('p_add_chain', 4), ('p_muladd', 3), ('p_negs', 3), ('p_self', 3),
     ('p_opaque_un', 2), ('p_neg', 1), ('p_opaque_bin', 2), ('p_madd', 2),
     ('p_sumn', 1.5), ('p_lsum', 2), ('p_sink', 1), ('p_mixed_mc', 2.5),
-    ('p_width_first', 1.2),
+    ('p_width_first', 1.2), ('p_array_control', 1.0),
 ]
 
 
@@ -1313,7 +1404,8 @@ def gen_program(rng, profile='c01', name=None, **kw):
     valued nodes only, every operator has a unit-generator operand, rate
     sensitive positions get rate-stable signals."""
     g = Gen(rng, profile, name=name, **kw)
-    g.params(rng.choice([0, 0, 1, 2, 2, 3, 4, 6]))
+    g.folding_agnostic = rng.random() < 0.25
+    g.params(rng.choice([0, 0, 1, 2, 2, 3, 4, 6]), arrays=rng.random() < 0.35)
     for _ in range(rng.randint(1, 4)):
         g.mk_src(rng.choice(['SinOsc', 'LFSaw', 'Impulse', 'WhiteNoise', 'Rand',
                              'LFNoise0', 'SampleRate']))
@@ -1326,7 +1418,7 @@ def gen_program(rng, profile='c01', name=None, **kw):
         getattr(g, rng.choices(names, weights)[0])()
     for _ in range(rng.choice([1, 1, 2, 2, 3, 4])):
         g.p_sink()
-    g.prog['features'] = sorted(g.features)
+    g.finish()
     return g.prog
 
 
@@ -1580,14 +1672,12 @@ def gen_program_c02(rng, kind, name=None):
     big = kind == 'big'
     g = Gen2(rng, 'c02', name=name or random_name(rng),
              max_nodes=420 if big else 70, max_depth=7, big_consts=big)
-    # hundreds of units: keep clear of the `x op x` dead-code defect (C01) so
-    # that big definitions are emitted at all on a tree that still has it
-    g.no_dup = big
+    g.folding_agnostic = rng.random() < 0.15
     g.params(rng.choice([0, 1, 2, 3, 4, 6, 8]), arrays=True,
              gate=rng.random() < 0.4)
     for i, inf in enumerate(list(g.info)):       # channels of array controls
-        if inf.kind == 'multi':
-            for c in range(inf.nout):
+        if g.prog['nodes'][i]['k'] == 'param' and inf.kind == 'list':
+            for c in range(inf.elems):
                 if rng.random() < 0.6:
                     g.add({'k': 'idx', 'a': ['n', i], 'i': c})
     for _ in range(rng.randint(1, 4)):
@@ -1596,7 +1686,7 @@ def gen_program_c02(rng, kind, name=None):
     wrap_params = []
     if kind == 'wrap' and rng.random() < 0.5:
         wrap_params += add_wraps(g, rng)
-    prods = [p for p in C01_PRODUCTIONS if not (big and p[0] == 'p_self')]
+    prods = list(C01_PRODUCTIONS)
     if kind in ('mc', 'big'):
         prods += [('p_list', 4), ('p_mc', 10), ('p_sink_list', 3)]
     if kind in ('wf', 'big'):
@@ -1626,8 +1716,8 @@ def gen_program_c02(rng, kind, name=None):
         prog['variants'], prog['variants_note'] = _variants(rng, prog)
     if kind.startswith('invalid:'):
         _inject_invalid(g, kind.split(':', 1)[1])
+    g.finish()
     prog['kind'] = kind
-    prog['features'] = sorted(g.features)
     return prog
 
 
